@@ -172,7 +172,9 @@ class Listeners:
                     yield listener.build_key(spec.attr_name), partial(callable_method, func)
                     return
 
-        yield f"{spec.attr_name}@None", partial(callable_method, spec.func)
+        # A callable that belongs to no provider (a lambda, a closure...) is identified by itself:
+        # several of them may share the same ``__name__``.
+        yield f"{spec.attr_name}@{id(spec.func)}", partial(callable_method, spec.func)
 
     @staticmethod
     def _declared_by_base_class(obj, spec) -> bool:
